@@ -138,7 +138,7 @@ def run(tier: str, seed: int, replay: str | None = None) -> int:
                 "1..doc_depth+2 (in-process Orchestrator, a fraction through the CLI); a case (file, language) is non-trivial when some "
                 "function has documented depth >= 2, i.e. limits on both sides of the boundary are exercised; distinct = distinct (skeleton, language)")
     chk.trusted_base.append("to_py/to_ts/to_rs (Model/Nesting.v): the statement-level shape of the parse tree of rendered skeletons is a parser oracle, validated by this correspondence")
-    chk.build(["theories/Props/C01.v"], ["NestingGen"])
+    chk.build(["theories/Props/C01.v"], ["NestingGen"], known_v=["theories/Props/C01Known.v"])
     scale = chk.budget_scale()
     n_files = (140 if tier == "quick" else 1500) * scale
     max_depth = 7 if tier == "quick" else 12
@@ -202,8 +202,13 @@ def run(tier: str, seed: int, replay: str | None = None) -> int:
 
 
 def corpus_cases():
+    """refutation witnesses and minimised earlier failures; replayed first on every run"""
     out = []
     d = Path(__file__).resolve().parent.parent.parent / "corpus" / PROP
     for p in sorted(d.glob("*.json")):
-        out.append(json.loads(p.read_text()))
+        c = json.loads(p.read_text())
+        text, placed = skel.render(c["lang"], c["items"])
+        dmax = max([skel.doc_depth(f[1]) for f in skel.functions_of(placed)], default=1)
+        out.append({"i": "corpus:" + p.stem, "mode": "corpus", "lang": c["lang"], "items": placed, "text": text,
+                    "limits": list(range(1, dmax + 3)), "dmax": dmax, "via": c.get("via", "api")})
     return out
